@@ -639,6 +639,72 @@ pub fn run_c09(ctx: &Ctx) -> Report {
         rep.counters.inc("conversations_with_stray_commands_judged");
     });
     rep.merge(r);
+    // ---- after connections that went away holding tens of thousands of open statements (one dies of
+    //      an execute of an unknown id, one is cut inside a packet, one leaves politely without
+    //      closing anything): what one connection held says nothing about the next one's PREPARE,
+    //      which gets its reply with exactly the declared metadata
+    if !ctx.miri {
+        let r = par_cases(ctx, "C09", "after-statement-hoarders", 3, |rng, i, rep| {
+            let hoard = 20_000u32;
+            let pc = simple_col("p", ColumnType::MYSQL_TYPE_LONG);
+            let mut cmds = Vec::with_capacity(hoard as usize + 2);
+            let mut scripts = Vec::with_capacity(hoard as usize);
+            for id in 0..hoard {
+                cmds.push(Cmd::prepare(b"h"));
+                scripts.push(Script::PrepOk { id, params: vec![pc.clone()], cols: vec![] });
+            }
+            let mut h = Case::new(cmds, scripts);
+            h.no_predecessors = true;
+            h.no_interloper = true;
+            h.log_reads = false;
+            match i {
+                0 => h.cmds.push(Cmd::execute(0x7777_0000, &[], false)),
+                1 => {
+                    h.cmds.push(Cmd::query(b"cut off in the middle"));
+                    let (inp, _) = h.input();
+                    h.fault.eof_after = Some(inp.len() - 5);
+                }
+                _ => h.cmds.push(Cmd::quit()),
+            }
+            let ho = run_case(&h);
+            rep.counters.add("statements_left_open_by_earlier_connections", hoard as u64);
+            let params = gen_cols(rng, 3, false);
+            let pcols = gen_cols(rng, 2, false);
+            let case = Case::new(vec![Cmd::prepare(b"p"), Cmd::ping()], vec![Script::PrepOk { id: 5, params: params.clone(), cols: pcols.clone() }]);
+            let obs = run_case(&case);
+            rep.evaluations += 1;
+            if harness_panic(&obs, rep) {
+                return;
+            }
+            let d = || J::obj().set("earlier_connection", format!("{} statements prepared and never closed, then {}", hoard, ["an execute of an unknown id", "the stream cut inside a packet", "QUIT"][i as usize])).set("its_outcome", ho.outcome.describe()).set("outcome", obs.outcome.describe());
+            rep.sample(d());
+            rep.counters.class(format!("after a connection that held {} statements and ended by {}", hoard, ["error", "cut", "quit"][i as usize]));
+            let dec = match decode_output(&obs) {
+                Ok(x) => x.2,
+                Err(e) => {
+                    rep.violations.push(viol("C09", "C09 bad-framing".into(), e, d()));
+                    return;
+                }
+            };
+            match dec.resps.get(2) {
+                Some(Resp::PrepareOk { id, params: gp, cols: gc, .. }) if *id == 5 => {
+                    for (what, g, w) in [("parameter definition", gp, &params), ("prepare column definition", gc, &pcols)] {
+                        if let Err((k, e)) = cmp_cols(what, g, w) {
+                            rep.violations.push(viol("C09", format!("C09 prepare-{}-differs", k), e, d()));
+                            return;
+                        }
+                        rep.counters.add("definitions_compared", g.len() as u64);
+                    }
+                    rep.counters.inc("prepares_after_statement_hoarders_compared");
+                }
+                other => {
+                    rep.violations.push(viol("C09", "C09 prepare-reply-kind".into(), format!("after a connection that left {} statements open, PREPARE is answered by {:?}", hoard, other).chars().take(300).collect(), d()));
+                }
+            }
+        });
+        rep.merge(r);
+    }
+
     // ---- several headers in one reply, text and binary: resultsets with no rows at all, left by
     //      finish_one / finish / drop, a completion or an error behind them; and a PREPARE that announced
     //      other columns than the execution then starts (a backend may only know the exact types once it
